@@ -142,10 +142,12 @@ bucket_fromBytes(PyObject *oself, PyObject *state)
     keys = BTree_Realloc(self->keys, sizeof(KEY_TYPE)*len);
     if (keys == NULL)
       return NULL;
+    /* realloc may have moved (and freed) the old block: keep the new one
+       even if growing the values fails */
+    self->keys = keys;
     values = BTree_Realloc(self->values, sizeof(VALUE_TYPE)*len);
     if (values == NULL)
       return NULL;
-    self->keys = keys;
     self->values = values;
     self->size = len;
   }
